@@ -69,6 +69,8 @@ const (
 	messageTypeRecalculateCaches
 	messageTypeNodeEvent
 	messageTypeNodeStatus
+	// added last so that the values of the types above do not change
+	messageTypeDeleteAvailableShard
 )
 
 // MarshalInternalMessage serializes the pilosa message and adds pilosa internal
@@ -116,6 +118,8 @@ func getMessage(typ byte) Message {
 		return &NodeEvent{}
 	case messageTypeNodeStatus:
 		return &NodeStatus{}
+	case messageTypeDeleteAvailableShard:
+		return &DeleteAvailableShardMessage{}
 	default:
 		panic(fmt.Sprintf("unknown message type %d", typ))
 	}
@@ -155,6 +159,8 @@ func getMessageType(m Message) byte {
 		return messageTypeNodeEvent
 	case *NodeStatus:
 		return messageTypeNodeStatus
+	case *DeleteAvailableShardMessage:
+		return messageTypeDeleteAvailableShard
 	default:
 		panic(fmt.Sprintf("don't have type for message %#v", m))
 	}
